@@ -12,7 +12,7 @@ for f in sorted(glob.glob(os.path.join(root, "harness", "checks", "c*", "manifes
         continue  # fragment exists but the check is still being built
     spec["checks"][pid] = json.load(open(f))
 for e in spec["engines"]:
-    e["serves_properties"] = sorted(p for p, c in spec["checks"].items() if c.get("engine") == e["name"])
+    e["serves_properties"] = sorted(p for p, c in spec["checks"].items() if c.get("engine") == e["name"] or e["name"] in c.get("also_engines", []))
 props = [json.loads(l)["id"] for l in open(os.path.join(root, "properties.jsonl")) if l.strip()]
 baseline = json.load(open("/root/.vp/BASELINE.json"))["cmd"]
 checks, na = [], []
